@@ -24,6 +24,14 @@ def build(tier):
                 pre += ["bs == 1" if kind in ("retr", "stor") else "bs == 3", "follow_i == k % 4"]
             src += hgen.cond(name, params, pre, f"L.session({ki}, k, bs, {wd}, {late}, follow_i)", sig="hb.KEY")
             conds += [Cond(name, "prop", T, group=kind), Cond(name + "__twin", "twin", 60, group=kind)]
+        # the same with a backend whose calls suspend (AsyncPathIO timing): ABOR can arrive INSIDE a backend call of the worker
+        name = f"abor_{kind}_slow"
+        ks = 24 if q else K
+        pre = [f"0 <= k <= {ks}", "bs == 3", "0 <= follow_i <= 3", f"1 <= lat <= {1 if q else 3}", "late == (k % 2 == 1)" if q else "True"]
+        if q:
+            pre += ["follow_i == k % 4"]
+        src += hgen.cond(name, "k: int, bs: int, follow_i: int, lat: int, late: bool", pre, f"L.session({ki}, k, bs, True, bool(late), follow_i, lat)", sig="hb.KEY")
+        conds += [Cond(name, "prop", T, group=kind), Cond(name + "__twin", "twin", 60, group=kind)]
     src += "\nfor _i in range(5):\n    L.session(_i, 7, 1, True, False, 1); L.session(_i, 0, 3, False, False, 2)\n"
     S = aioftp.Server
     return Spec(
@@ -34,13 +42,14 @@ def build(tier):
             "transfer": f"{L.KINDS}; 7-byte file / 7-byte upload arriving byte by byte 1 virtual ms apart; server block size in (1, 3)",
             "ABOR arrival": f"delivered at the k-th event-loop iteration after the 150 mark was written, k symbolic in 0..{K} (covers: before the data connection is made, every byte position, after completion); "
                             "data connection already made, never made, or made a few iterations after the 150 mark",
+            "slow backend": f"every backend call of the session suspends for 1..{1 if q else 3} virtual ms (MemoryPathIO semantics, AsyncPathIO timing), ABOR at iteration 0..{24 if q else K}, data connection made at once or late",
             "follow-up": f"{L.FOLLOW}: PWD, a fresh download, a fresh upload, a second ABOR" + (" (quick: chosen as k mod 4)" if q else " (symbolic)"),
         },
         outside=["ABOR pipelined before the 150 mark of its transfer was sent", "files longer than 7 bytes", "several concurrent transfers on one session", "real sockets / TLS"],
         explanation=(
             "The real dispatcher runs PASV, a transfer command and an ABOR that arrives at a SYMBOLIC loop iteration after the 150 mark (CrossHair/z3 enumerate and certify every arrival point in the bound), "
             "with the data connection made, withheld or made late. Asserted: between the 150 mark and the follow-up the control channel carries exactly [completion, 226], [426, 226] or [425, 226]; the session "
-            "is not torn down; the transfer's data connection is closed; downloaded / stored bytes are a prefix of the content; the follow-up (PWD, fresh download, fresh upload, second ABOR) succeeds."
+            "is not torn down; the transfer's data connection is closed when the session has ended, whoever held it when ABOR arrived; downloaded / stored bytes are a prefix of the content; the follow-up (PWD, fresh download, fresh upload, second ABOR) succeeds."
         ),
         assumptions=BASE_ASSUMPTIONS + ["the client sends ABOR only after it has seen the 150 mark (commands one at a time)"],
         extra={"stubs": STUBS + ["IterReader: control reader delivering ABOR at a loop iteration counted by VLoop.on_iteration", "Listeners stub; the client's data connections call the handler callback registered by PASV"]},
